@@ -45,6 +45,10 @@ def histories_below(root):
 
 def rel(root, p):
     r = os.path.relpath(p, root)
+    if r.startswith(".." + os.sep) or r == "..":
+        # the same folder spelled through another route (a symbolic link above the root: the tool prints what the
+        # operating system reports as the working directory): compare the real locations
+        r = os.path.relpath(os.path.realpath(p), os.path.realpath(root))
     return "" if r == "." else r
 
 
@@ -374,6 +378,12 @@ def run_impl(scn, scratch, keep=False, snap=False):
 
 def _run_impl(scn, scratch, keep=False, snap=False):
     base = scratch.new("s")
+    if scn.get("link_parent"):
+        # the folder is reached through a symbolic link somewhere above it (a mounted volume, a linked project folder):
+        # every path handed to the tool contains the link, the real location is elsewhere
+        os.mkdir(os.path.join(base, "real location"))
+        os.symlink("real location", os.path.join(base, "link"))
+        base = os.path.join(base, "link")
     root = os.path.join(base, scn.get("root_name", "r"))
     os.mkdir(root)
     aux = os.path.join(base, "aux")
@@ -395,6 +405,10 @@ def _run_impl(scn, scratch, keep=False, snap=False):
         st = dict(st)
         if st["op"] == "flatten":
             st["dest_path"] = os.path.join(aux, f"flat{len(os.listdir(aux))}")
+            if st.get("deep_dest"):
+                # a destination whose parent folders do not exist: whatever the command does about that, it creates nothing
+                # outside the destination folder itself
+                st["dest_path"] = os.path.join(aux, f"nowhere{len(os.listdir(aux))}", "sub", "flat")
         if st["op"] == "verifypl":
             st["pl_path"] = st.get("pl_path") or _latest_packing_list(aux)
         before = manifest_listing(root)
@@ -570,6 +584,8 @@ def step_line(st):
     if op == "infosf":
         return f"infosf {ptok(st['file'])} " + (f"1 {root}" if st.get("root") is not None else "0")
     if op == "flatten":
+        if st.get("deep_dest"):
+            return None          # the model has no destination folder: observed by the snapshot oracle only
         return f"flatten {root}"
     if op == "verifypl":
         # the packing list is what the latest flatten wrote; the model recomputes it from the (unchanged) history at _pl_src
@@ -650,7 +666,7 @@ def run_model(scn, model):
     out = []
     pl_src = None                 # root of the latest flatten, as long as no later command can have changed a history
     for st in scn["steps"]:
-        if st["op"] == "flatten":
+        if st["op"] == "flatten" and not st.get("deep_dest"):
             pl_src = st.get("root", "") or ""
         elif st["op"] in ("create", "tamper", "rmmanifest", "rmchain") or (st["op"] in ("rename", "delete") and pl_src is not None):
             pl_src = None
